@@ -733,7 +733,12 @@ func c09Stress(cfg sb.Config, rec *sb.Rec, dl time.Time) {
 		sbd.WriteString("<?php\n")
 		fmt.Fprintf(&sbd, "$ch = new Channel(%d);\n$done = new Channel(%d);\n", capN, np+nc)
 		for p := 0; p < np; p++ {
-			fmt.Fprintf(&sbd, "spawn(function() use ($ch, $done) { for ($i = 0; $i < %d; $i++) { $ch->send(%d + $i); } $done->send(-1); });\n", per, p*1000)
+			if p%2 == 0 {
+				// the loop variable itself is sent: what is received must be the value at send time
+				fmt.Fprintf(&sbd, "spawn(function() use ($ch, $done) { for ($i = %d; $i < %d; $i++) { $ch->send($i); } $done->send(-1); });\n", p*1000, p*1000+per)
+			} else {
+				fmt.Fprintf(&sbd, "spawn(function() use ($ch, $done) { for ($i = 0; $i < %d; $i++) { $ch->send(%d + $i); } $done->send(-1); });\n", per, p*1000)
+			}
 		}
 		fmt.Fprintf(&sbd, "$out = new Channel(%d);\n", np*per+nc)
 		for c := 0; c < nc; c++ {
